@@ -304,4 +304,49 @@ PROPS = {
         ],
         "partial": ["on the JSR deferred content-fill route the text-is-decoding clause is proved only when the response header names no charset or a UTF-8 label (C20_jsr_fill_holds_outside_known_class); the unrestricted statement is refuted (C20_jsr_fill_ignores_header_refuted, F-C20a); the original-bytes and size clauses hold on every route"],
     },
+    "C07": {
+        "harness": "c07",
+        "props_file": "Props/C07.v",
+        "run_module": "Model.Packages Model.RunC07",
+        "run_fn": "run_c07",
+        "pinned_theorems": ["C07_version_print_parse", "C07_version_parse_canonical", "C07_pkg_url_shape",
+                            "C07_url_roundtrip", "C07_url_unique_owner", "C07_to_nv_result_roundtrips",
+                            "C07_url_no_misattribution", "C07_url_no_misattribution_text",
+                            "C07_no_misattr_judgement_correct",
+                            "C07_loose_version_refuted", "C07_double_slash_refuted", "C07_slashless_base_refuted",
+                            "C07_scheme_like_scope_refuted",
+                            "C07_export_iff_listed", "C07_exports_keys_unique", "C07_export_string",
+                            "C07_export_object", "C07_export_object_last_wins", "C07_norm_export_shape",
+                            "C07_table_refines", "C07_table_no_panic", "C07_table_mappings",
+                            "C07_table_versions_by_name", "C07_table_packages", "C07_table_packages_with_deps",
+                            "C07_table_sets"],
+        "rule": ("four streams by case number. (url) registry URLs as serialised by url::Url (6 plain http(s) directory "
+                 "URLs incl. userinfo/port/sub-path, 8 odd ones: no trailing slash, query, fragment, file:, custom scheme) x "
+                 "package names (@scope/name from a 6-letter alphabet so prefixes collide, no-@ scopes, 25 adversarial: "
+                 "empty, extra/missing slashes, scheme-like, dot segments, %2e, query/fragment/space/non-ASCII/backslash) x "
+                 "versions (incl. u64::MAX, pre-release, build metadata): the real recommended_registry_package_url, and "
+                 "recommended_registry_package_url_to_nv on package URL + paths, _meta.json / meta.json siblings, 17 "
+                 "non-canonical version spellings, doubled slashes, look-alike hosts and paths, other scheme, "
+                 "percent-encoded and upper-cased forms, query/fragment inside, unrelated URLs, random 1-2 character "
+                 "mutants; values compared with the model, the real results judged (no misattribution, round trip) by the "
+                 "extracted decision procedure. (version) Version::parse_standard on ALL strings of length <= 5 (quick) / "
+                 "<= 6 (thorough) over {0,1,.,-,+,v,a,=} plus random version-like texts with Unicode whitespace, u64 "
+                 "overflow, leading zeros; compared as accepted + canonical re-print. (exports) "
+                 "deno_semver::jsr::normalized_export_name on sub-paths; JsrPackageVersionInfo parsed by serde_json from "
+                 "hand-assembled manifests (exports absent/string/object with string, null, bool, number, array, object "
+                 "values and REPEATED keys/other JSON): export(k) for 12 keys and the exports() set. (table) histories of "
+                 "0-10 operations on the real PackageSpecifiers through its public API (add_nv directly or on "
+                 "ModuleGraph.packages, ModuleGraph::fill_from_lockfile entries with version texts the loose parser "
+                 "accepts/rejects, requirements and name@versions that are Eq-distinct but Ord-equal through build "
+                 "metadata); observers mappings, versions_by_name, package_exports, packages_with_deps, is_empty, "
+                 "packages_len, package_deps_sum, used_yanked_packages. non-trivial = url: >= 2 accepted and >= 2 rejected "
+                 "URLs; version: both outcomes; exports: a hit and a miss; table: some requirement added twice"),
+        "assumptions": [
+            "Url::join is modelled only where the WHATWG path state copies its input (http(s) base, characters outside the path percent-encode set, no dot segments, not scheme-like); elsewhere the real package URL enters the judgement as data",
+            "PackageSpecifiers::{ensure_package, add_dependency, add_export, add_top_level_package, add_used_yanked_package, top_level_packages} are pub(crate): the real table is driven through add_nv and fill_from_lockfile only; the other operations are covered by the theorems but not by the correspondence until the builder model drives them",
+            "known findings F-C07a (loose version text), F-C07b (doubled slash), F-C07c (registry URL that is not a plain directory URL), F-C07d (scheme-like scope) are reported as KNOWN-FINDING; the model/implementation comparison of all values is NOT suspended for them",
+        ],
+        "partial": ["builder-level part of C07 (redirect insertion, unknown-export error, which operations the builder issues on the table) is not covered here",
+                    "no-misattribution is proved outside four input classes; the unrestricted statement is refuted (4 witnesses)"],
+    },
 }
